@@ -18,6 +18,9 @@ pub const DOCS: &[&str] = &[
     r#"["only","strings","with é unicode 😀","and \\ backslashes"]"#,
 ];
 
+/// documents whose root is a scalar (no children block in the arena)
+pub const SCALAR_DOCS: &[&str] = &["12345678901234567890.123456789", "-0.5e-7", "7", "\"a string root, long enough to be copied ...............\"", "\"esc\\n\"", "true", "null", "18446744073709551615"];
+
 #[derive(Deserialize)]
 struct Emb {
     #[allow(dead_code)]
@@ -81,10 +84,24 @@ fn content_check(ctx: &mut Ctx, v: &Value, want: &M, what: &str) -> bool {
 
 /// build up to six handles that share arenas in different ways
 fn template(t: u64, r: &mut Rng) -> Vec<Value> {
-    let doc = DOCS[(t / 8) as usize % DOCS.len()];
-    let doc2 = DOCS[(t / 8 + 1) as usize % DOCS.len()];
+    let doc = DOCS[(t / 9) as usize % DOCS.len()];
+    let doc2 = DOCS[(t / 9 + 1) as usize % DOCS.len()];
     let _ = r;
-    match t % 8 {
+    match t % 9 {
+        8 => {
+            // scalar roots, default and raw-number mode, whole-input and embedded, plus clones
+            let k = (t / 9) as usize;
+            let s1 = SCALAR_DOCS[k % SCALAR_DOCS.len()];
+            let s2 = SCALAR_DOCS[(k + 1) % SCALAR_DOCS.len()];
+            let a = Deserializer::from_str(s1).use_rawnumber().deserialize::<Value>().unwrap();
+            let b = Deserializer::from_str(s2).use_rawnumber().deserialize::<Value>().unwrap();
+            let c: Value = sonic_rs::from_str(s1).unwrap();
+            let d = a.clone();
+            let e: Vec<Value> = Deserializer::from_str(&format!("[{},{}]", s1, s2)).use_rawnumber().deserialize().unwrap();
+            let mut out = vec![a, b, c, d];
+            out.extend(e);
+            out
+        }
         0 => {
             let a: Value = sonic_rs::from_str(doc).unwrap();
             let c1 = a.clone();
@@ -260,10 +277,16 @@ fn run_history(ctx: &mut Ctx, seed: u64, steps: usize) {
         let k = r.below(20);
         if k < 6 {
             // parse routes into one or two registers
-            let d = *r.pick(DOCS);
+            let d = if r.chance(1, 3) { *r.pick(SCALAR_DOCS) } else { *r.pick(DOCS) };
             let a = r.below(NREG as u64) as usize;
             let b = (a + 1) % NREG;
-            match r.below(4) {
+            match r.below(5) {
+                4 => {
+                    // raw-number mode: numbers are kept as text nodes
+                    m.regs[a] = Deserializer::from_str(d).use_rawnumber().deserialize::<Value>().unwrap();
+                    m.model[a] = dump(&sonic_rs::from_str::<Value>(d).unwrap());
+                    log.push(format!("parse-rawnumber r{}", a));
+                }
                 0 => {
                     m.regs[a] = sonic_rs::from_str(d).unwrap();
                     m.model[a] = dump(&m.regs[a]);
@@ -446,7 +469,7 @@ impl Check for C16 {
     }
     fn generate(&self, g: &GenParams, emit: &mut dyn FnMut(Case)) {
         // all drop permutations of every template (<= 6 handles: 720 orders)
-        let ntemplates = 8 * DOCS.len() as u64;
+        let ntemplates = 9 * SCALAR_DOCS.len() as u64;
         let mut idx = 0u64;
         for t in 0..ntemplates {
             for blk in 0..6u64 {
@@ -498,7 +521,7 @@ impl Check for C16 {
                     }
                 }
                 ctx.class("mode:all-drop-permutations");
-                ctx.class(&format!("template:{}", t % 8));
+                ctx.class(&format!("template:{}", t % 9));
                 ctx.sample("permutations");
             }
             "history" => {
@@ -512,7 +535,7 @@ impl Check for C16 {
         }
     }
     fn required_classes(&self, b: &str, _t: Tier) -> Vec<&'static str> {
-        let mut v = vec!["mode:all-drop-permutations", "mode:random-history", "mode:threads", "drop:on-other-thread", "op:parse", "op:thread", "template:2", "template:4", "template:5"];
+        let mut v = vec!["mode:all-drop-permutations", "mode:random-history", "mode:threads", "drop:on-other-thread", "op:parse", "op:thread", "template:2", "template:4", "template:5", "template:8"];
         if b == "native-rel" {
             v.push("ledger:arena-checked");
             v.push("ledger:alloc-checked");
